@@ -49,8 +49,10 @@ def is_short_date_spec(short_date: str) -> bool:
 
 def is_long_date_spec(long_date: str) -> bool:
     """Returns True iff {long_date} is a valid long date."""
+    # Like the grammar's DATE token, which only covers the years 2000-2999.
     if not (
         len(long_date) == 10
+        and long_date[0] == "2"
         and {long_date[4], long_date[7]} == {"-"}
         and all(ch.isdigit() for ch in long_date.replace("-", ""))
     ):
